@@ -86,8 +86,8 @@ CONFIGS = {
                    fam=["plain", "kwdom", "pwip"]),
     # C09 ---------------------------------------------------------------------------------
     "hist2": dict(kinds=["ip", "short", "fqdn", "dom", "mac"], nip=2, ndom=2, nmac=2, tok=2, lines=2, specs=2, tot=2,
-                  kws=[[]], fam=["plain", "collide", "suffix"]),
-    "hist2x": dict(kinds=["ip", "fqdn", "dom", "mac", "kw", "text"], nip=2, ndom=2, nmac=1, tok=2, lines=2, specs=2, tot=2,
+                  kws=[[]], fam=["plain", "collide", "suffix", "prefix"]),
+    "hist2x": dict(kinds=["ip", "fqdn", "dom", "kw", "text"], nip=1, ndom=2, nmac=1, tok=2, lines=2, specs=2, tot=2,
                    kws=[[1]], noobf=[[], ["ip", "hostname"]], fam=["plain"], sysdom=[True, False]),
     "hist3ip": dict(kinds=["ip"], nip=3, tok=3, lines=3, specs=3, tot=3, kws=[[]], fam=["plain", "collide", "prefix"]),
     "hist3host": dict(kinds=["short", "fqdn", "dom"], ndom=3, tok=2, lines=3, specs=3, tot=3, kws=[[]],
@@ -110,14 +110,14 @@ CONFIGS = {
 }
 
 PLAN = {
-    "C08": dict(quick=dict(emit=["tok1", "switch1", "pair", "pairx"], model=["orders"], cap=7000, nconc=3,
+    "C08": dict(quick=dict(emit=["tok1", "switch1", "pair", "pairx"], model=["orders"], cap=10000, nconc=3,
                            paths=["content"]),
                 thorough=dict(emit=["tok1", "switch1", "pair", "pairx", "triple", "triplep"], model=["orders"],
                               cap=60000, nconc=10, paths=["content", "content", "file", "provider", "fileprovider"])),
-    "C09": dict(quick=dict(emit=["hist2", "hist2x"], model=[], cap=7000, nconc=2, paths=["content"]),
+    "C09": dict(quick=dict(emit=["hist2", "hist2x"], model=[], cap=9000, nconc=2, paths=["content"]),
                 thorough=dict(emit=["hist2", "hist2x", "hist3ip", "hist3host", "hist3mac"], model=[], cap=60000,
                               nconc=4, paths=["content", "content", "provider", "file"])),
-    "C10": dict(quick=dict(emit=["runs3"], model=["ordruns"], cap=500, seeds=16),
+    "C10": dict(quick=dict(emit=["runs3"], model=["ordruns"], cap=700, seeds=16),
                 thorough=dict(emit=["runs3", "runs2x2", "runs4"], model=["ordruns"], cap=2500, seeds=64)),
 }
 
@@ -210,6 +210,72 @@ def ckey(c):
     return hashlib.sha1(json.dumps([c["cf"], c["content"]], sort_keys=True).encode()).hexdigest()
 
 
+def selftest_traces(traces, prop):
+    """R5 binding demonstration: corrupt one recorded field of accepted-looking traces; every corrupted
+    copy must be REJECTED by CleanerTrace with the expected clause, else the machinery is broken."""
+    import copy
+    out = []
+
+    def add(t, tag, expect):
+        t = copy.deepcopy(t)
+        t["id"] = "selftest:%s:%s" % (tag, t["id"])
+        t["expect"] = expect
+        out.append(t)
+        return t
+    done = set()
+    for t in traces:
+        if len(done) >= 4:
+            break
+        if t["mode"] == "lines":
+            for i, e in enumerate(t["events"]):
+                if e["ev"] == "line" and "leak" not in done:
+                    js = [j for j, o in enumerate(e["obs"]) if o["st"] in ("sub", "other") and e["toks"][j]["k"] in ("kw", "pw")]
+                    if js:
+                        m = add(t, "leak", "NoLeak")
+                        m["events"][i]["obs"][js[0]] = {"st": "kept", "v": 0}
+                        done.add("leak")
+                        break
+                if e["ev"] == "line" and "cons" not in done and prop == "C09":
+                    js = [j for j, o in enumerate(e["obs"]) if o["st"] == "sub" and e["toks"][j]["k"] in ("ip", "mac", "dom")]
+                    later = [k for k in range(i + 1, len(t["events"])) if t["events"][k]["ev"] == "line" and any(
+                        x["k"] == e["toks"][j]["k"] and x["id"] == e["toks"][j]["id"] and o2["st"] == "sub"
+                        for j in js for x, o2 in zip(t["events"][k]["toks"], t["events"][k]["obs"]))]
+                    if js and later:
+                        m = add(t, "cons", "Consistent")
+                        for o in m["events"][i]["obs"]:
+                            if o["st"] == "sub":
+                                o["v"] += 1000
+                        done.add("cons")
+                        break
+                if e["ev"] == "endspec" and len(e["out"]) >= 2 and e["out"][0]["src"] != e["out"][1]["src"] and "prov" not in done:
+                    m = add(t, "prov", "ProvenanceMonotone")
+                    m["events"][i]["out"][0], m["events"][i]["out"][1] = m["events"][i]["out"][1], m["events"][i]["out"][0]
+                    done.add("prov")
+                    break
+                if e["ev"] == "report" and e["maps"] and "rep" not in done and prop == "C09":
+                    ks = [k for k, x in enumerate(e["maps"]) if x["k"] in ("ip", "dom", "mac") and x["g"] != "kw"]
+                    if ks and any(ev["ev"] == "line" and any(o["st"] == "sub" and tk["k"] == e["maps"][ks[0]]["k"] and
+                                                              tk["id"] == e["maps"][ks[0]]["id"]
+                                                              for tk, o in zip(ev["toks"], ev["obs"])) for ev in t["events"][:i]):
+                        m = add(t, "rep", "ReportExact")
+                        m["events"][i]["maps"][ks[0]]["v"] += 1000
+                        done.add("rep")
+                        break
+        else:
+            runs = [e for e in t["events"] if e["ev"] == "run"]
+            if len(runs) >= 2 and runs[1]["specs"] and runs[1]["specs"][0]["sig"] and "det" not in done:
+                m = add(t, "det", "Deterministic")
+                [e for e in m["events"] if e["ev"] == "run"][1]["specs"][0]["sig"][0] += 1000
+                done.add("det")
+            if runs and len(runs[0]["specs"][0]["out"]) >= 2 and "prov" not in done and \
+                    runs[0]["specs"][0]["out"][0]["src"] != runs[0]["specs"][0]["out"][1]["src"]:
+                m = add(t, "prov", "ProvenanceMonotone")
+                o = m["events"][0]["specs"][0]["out"]
+                o[0], o[1] = o[1], o[0]
+                done.add("prov")
+    return out
+
+
 def run(prop, tier):
     rng = random.Random(lib.seed())
     plan = PLAN[prop][tier]
@@ -260,6 +326,7 @@ def run(prop, tier):
                     specs.append(dict(path=s["path"], si=s["si"], orders=s["orders"], out=s["out"], sig=sig,
                                       stored=s["stored"], raised=s["raised"]))
                 events.append(dict(ev="run", hs=k, specs=specs))
+            events.append(dict(ev="endruns"))
             traces.append(dict(id=c["id"] + "/runs", mode="runs", cf=c["cf"], special=[], content=c["content"],
                                events=events,
                                concrete=dict(input=outs[0]["runs"][c["id"]]["specs"][0]["input"],
@@ -270,7 +337,19 @@ def run(prop, tier):
         vacuous = [] if orders_seen else ["application order"]
     print("timing: drivers %.1fs, %d traces" % (time.time() - t1, len(traces)))
     t1 = time.time()
-    val = lib.validate_traces("CleanerTrace", "CleanerTrace.cfg", traces)
+    st = selftest_traces(traces, prop)
+    val = lib.validate_traces("CleanerTrace", "CleanerTrace.cfg", traces + st)
+    rej = dict((r["id"], r) for r in val["rejected"])
+    for t in st:
+        r = rej.get(t["id"])
+        if r is None or not r["clause"].startswith(t["expect"]):
+            raise lib.MachineryError("self-test: corrupted trace %s should be rejected by %s, got %s"
+                                     % (t["id"], t["expect"], r and r["clause"]))
+    if not st:
+        raise lib.MachineryError("self-test: no trace could be corrupted (nothing observed?)")
+    val["rejected"] = [r for r in val["rejected"] if not r["id"].startswith("selftest:")]
+    val["traces"] -= len(st)
+    extra["selftest_corrupted_traces_rejected"] = sorted(t["id"].split(":")[1] for t in st)
     print("timing: validation %.1fs (%d events, %d JVMs)" % (time.time() - t1, val["events"], val["jvms"]))
 
     bycase = dict((c["id"], c) for c in cases)
@@ -289,13 +368,16 @@ def run(prop, tier):
         case = bycase[t["id"].split("/")[0]]
         what = "trace %s rejected at event %d: clause %s; input %s" % (
             t["id"], rj["line"], clause, json.dumps(t.get("concrete"))[:600])
-        verdict.reject(lib.sig(prop, *clause.split(":")), what, dict(case=case, trace=t, rejected=rj))
+        verdict.reject(lib.sig(prop, *clause.split(":")), what,
+                       dict(case=case, trace=t, rejected=rj, seed=lib.seed(), tier=tier))
     if vacuous and not val["rejected"]:
         raise lib.MachineryError("vacuity: the driver never observed %s" % ", ".join(vacuous))
     for cl, n in sorted(other.items()):
         print("note: %d trace(s) rejected by clause %s which belongs to %s (not decided by this check)"
               % (n, cl, owner(cl)))
 
+    extra["kind_x_delimiter_classes_replayed"] = len(set((t["k"], t["l"], t["r"]) for c in cases for sp in c["content"]
+                                                       for ln in sp["lines"] for t in ln))
     nt = len(set(ckey(c) for c in cases if nontrivial(c, prop)))
     samples = [dict(case=dict(cf=c["cf"], content=c["content"])) for c in cases[:2]]
     for t in traces[:2]:
@@ -312,3 +394,41 @@ def run(prop, tier):
                    invariants_checked_on_model=INVS + ["Consistent"], other_property_rejections=other,
                    exhaustive=False, **extra))
     return verdict.finish(ev)
+
+
+def replay(prop, path):
+    """./check Cxx --replay <file>: re-execute the recorded case against the current tree and re-validate it."""
+    with open(path) as f:
+        rec = json.load(f)
+    rp = rec["replay"]
+    case, tid = rp["case"], rp["trace"]["id"]
+    seed = rp.get("seed", 0)
+    tmp = lib.subdir("cleaner-replay")
+    print("recorded: %s\n  %s" % (rec["signature"], rec["what"][:800]))
+    if rp["trace"]["mode"] == "lines":
+        _, j, pth = tid.rsplit("/", 2)
+        out = lib.run_driver("drive_cleaner.py", dict(mode="lines", cases=[case], nconc=int(j) + 1, seed=seed,
+                                                      paths=[pth], tmp=tmp, facts=(prop == "C09")))
+        traces = [t for t in out["traces"] if t["id"] == tid]
+    else:
+        K = 16 if rp.get("tier", "quick") == "quick" else 64
+        case["paths"] = ["content", "provider"]
+        outs = lib.run_driver_parallel("drive_cleaner.py", [dict(mode="runs", cases=[case], seed=seed,
+                                                                 tmp=os.path.join(tmp, "hs%d" % k)) for k in range(K)],
+                                       hashseeds=list(range(K)))
+        ids, events = {}, []
+        for k, o in enumerate(outs):
+            specs = [dict(path=s["path"], si=s["si"], orders=s["orders"], out=s["out"], stored=s["stored"],
+                          raised=s["raised"], sig=[ids.setdefault(t, len(ids) + 1) for t in s["texts"]])
+                     for s in o["runs"][case["id"]]["specs"]]
+            events.append(dict(ev="run", hs=k, specs=specs))
+        events.append(dict(ev="endruns"))
+        traces = [dict(id=tid, mode="runs", cf=case["cf"], special=[], content=case["content"], events=events)]
+    val = lib.validate_traces("CleanerTrace", "CleanerTrace.cfg", traces, jobs=1)
+    if val["rejected"]:
+        for r in val["rejected"]:
+            print("REPRODUCED: trace %s rejected at event %d by clause %s" % (r["id"], r["line"], r["clause"]))
+        print(json.dumps(traces[0].get("concrete", traces[0]["events"][:3]))[:1500])
+        return 1
+    print("not reproduced on the current tree: the trace is accepted")
+    return 0
